@@ -11,14 +11,15 @@
 (*              reported as an error (outermost filter is the md5 filter); *)
 (*   replypipe  a reply travels through the pipe of its call.              *)
 (***************************************************************************)
-EXTENDS Naturals, Sequences, FiniteSets, TLC, Json, IOUtils
+EXTENDS Naturals, Sequences, SequencesExt, FiniteSets, TLC, Json, IOUtils
 CONSTANTS Export, MaxLen
 
 Reg == {"g", "G", "m"}
 Payloads == {"empty", "b1", "zeros4k", "rand4k", "rand1m"}
 SeqsUpTo(n) == UNION {[1..k -> Reg] : k \in 0..n}
-RECURSIVE Str(_)
-Str(p) == IF p = <<>> THEN "" ELSE p[1] \o Str(Tail(p))   \* pipes as strings of ids
+\* pipes as strings of ids (a fold, evaluated iteratively by TLC's SequencesExt override: a recursive definition over
+\* Tail overflows the Java stack for pipes of 255 filters when the JVM is slow to compile, e.g. on a loaded machine)
+Str(p) == FoldLeft(LAMBDA acc, x : acc \o x, "", p)
 Rep(s, n) == [i \in 1..n |-> s[((i - 1) % Len(s)) + 1]]
 LongPipes == {Rep(s, n) : s \in {<<"g">>, <<"m">>, <<"g", "m">>, <<"m", "G", "g">>}, n \in {5, 16, 255}}
 WirePipes == {Rep(s, n) : s \in {<<"m">>, <<"g", "m">>}, n \in {254, 255}}
